@@ -1,8 +1,14 @@
 -- Root of the library: importing every property module makes `lake build` re-check everything.
+import ExprModel.Props.C01
+import ExprModel.Props.C03
+import ExprModel.Props.C04
 import ExprModel.Props.C05
 import ExprModel.Props.C06
 import ExprModel.Props.C07
+import ExprModel.Props.C08
+import ExprModel.Props.C09
 import ExprModel.Props.C10
+import ExprModel.Props.C11
 import ExprModel.Props.C12
 import ExprModel.Props.C13
 import ExprModel.Props.C14
